@@ -20,7 +20,7 @@ Print Assumptions C10_send_refused.
    request that was outstanding at the failure (process_msg's pop finds nothing) *)
 Theorem C10_swap_empties : forall s, reqs (step s ErrSwap) = [] /\ zlen (erroring (step s ErrSwap)) = zlen (erroring s) + zlen (reqs s).
 Proof.
-  intros s. unfold step. proj. split; [reflexivity|]. rewrite zlen_app.
+  intros s. unfold step, err_swap. proj. split; [reflexivity|]. rewrite zlen_app.
   destruct (reqs s) as [|[k v] r]; [reflexivity|]. unfold zlen. cbn [length]. rewrite rev_length, map_length. lia.
 Qed.
 Print Assumptions C10_swap_empties.
@@ -31,6 +31,40 @@ Proof.
   destruct (lookup i (ghost s)) as [[]|]; cbn [unit_tag Z.eqb Pos.eqb]; proj; reflexivity.
 Qed.
 Print Assumptions C10_no_late_delivery.
+
+
+(* the asyncio reactor defers the second half of close() to the loop thread (op CloseRun = `if not self.is_defunct:
+   error_all_requests`).  A failure reported between close() and the deferred half finds the connection closed: defunct()
+   returns without setting is_defunct (DefunctFlag is a no-op), so the deferred half still fails every pending request. *)
+Theorem C10_deferred_close_then_failure : forall s, defunct s = false ->
+  let s' := run s [Close; DefunctFlag; CloseRun] in
+  closed s' = true /\ defunct s' = false /\ reqs s' = [] /\ zlen (erroring s') = zlen (erroring s) + zlen (reqs s).
+Proof.
+  intros s D. unfold run. cbn [fold_left].
+  assert (C1 : closed (step s Close) = true /\ defunct (step s Close) = false /\ reqs (step s Close) = reqs s /\ erroring (step s Close) = erroring s).
+  { unfold step. destruct (closed s) eqn:C; proj; auto. }
+  destruct C1 as [A [B [R E]]]. set (s1 := step s Close) in *.
+  assert (S2 : step s1 DefunctFlag = s1) by (unfold step; rewrite A, B; reflexivity).
+  rewrite S2. assert (S3 : step s1 CloseRun = err_swap s1) by (unfold step; rewrite B; reflexivity). rewrite S3.
+  destruct (C10_swap_empties s1) as [X Y]. unfold step in X, Y.
+  assert (F : closed (err_swap s1) = closed s1 /\ defunct (err_swap s1) = defunct s1) by (unfold err_swap; proj; split; reflexivity).
+  destruct F as [F1 F2].
+  split; [rewrite F1; exact A|]. split; [rewrite F2; exact B|]. split; [exact X|]. rewrite Y, R, E. reflexivity.
+Qed.
+Print Assumptions C10_deferred_close_then_failure.
+
+(* paging sessions are told about the failure whether or not an ordinary request is registered *)
+Theorem C10_sessions_errored_without_requests : forall s i se rel, reqs s = [] -> In (i, (se, rel)) (cps s) ->
+  In (ECpError se) (log (step s ErrCp)).
+Proof.
+  intros s i se rel _ I. unfold step.
+  assert (X : forall (l : list (Z * (Z * bool))) base, In (i, (se, rel)) l ->
+              In (ECpError se) (log (fold_right (fun c acc => ev (ECpError (fst (snd c))) acc) base l))).
+  { induction l as [|c l IH]; intros base J; [destruct J|]. cbn [fold_right]. proj.
+    destruct J as [->|J]; [left; reflexivity|right; exact (IH base J)]. }
+  apply X. exact I.
+Qed.
+Print Assumptions C10_sessions_errored_without_requests.
 
 (* each ErrCall invokes exactly the next queued callback, once, with ConnectionShutdown *)
 Theorem C10_errcall_once : forall s cb rest, erroring s = cb :: rest ->
